@@ -120,6 +120,15 @@ func c31Gen(rng *core.Rng, tier string) *harness.Plan {
 		// quick: stop once the proposer's batch frames have been measured (the
 		// other nodes would spend minutes verifying half a million signatures)
 		p.Params["stop_after_proposal"] = 1
+	} else if p.Params["storage"] == 0 {
+		// thorough: most signature-heavy runs stop there too (a full run takes the better part of an hour
+		// of signature verification on seven nodes); the others go all the way to finalization with a
+		// third of the load
+		if rng.Chance(0.8) {
+			p.Params["stop_after_proposal"] = 1
+		} else {
+			p.Params["txs"], p.Params["inputs"] = int64(10+rng.IntN(5)), 256
+		}
 	}
 	p.Params["target"] = int64(rng.IntN(7))
 	p.Params["spread_ms"] = int64(rng.IntN(900))
